@@ -117,6 +117,31 @@ Json::Value genHookKillPlanWith(Rng& rng, const KillGenOpts& o) {
       plan["dropin_hook_ops"].append(op);
     }
   }
+  // the victim (or a bystander) removed / re-created in the middle of a tick:
+  // after the tick's refresh, before or while the kill action runs
+  if (o.midTickEdits && rng.chance(0.3) && !paths.empty()) {
+    int nticks = plan["ticks"].asInt();
+    int ne = (int)rng.range(1, 2);
+    for (int i = 0; i < ne; i++) {
+      Json::Value e(Json::objectValue);
+      e["tick"] = (int)rng.range(1, nticks - 1);
+      e["at"] = (Json::Int64)rng.range(0, 160);
+      e["op"]["cg"] = rng.pick(paths);
+      if (rng.chance(0.3)) {
+        e["op"]["op"] = "rm";
+      } else {
+        e["op"]["op"] = "recreate";
+        Json::Value v(Json::objectValue);
+        Json::Value pids(Json::arrayValue);
+        pids.append(5800000 + i);
+        v["pids"] = pids;
+        v["cur"] = (Json::Int64)(1LL << 40);
+        v["swap_cur"] = (Json::Int64)(1LL << 38);
+        e["op"]["v"] = v;
+      }
+      plan["edits"].append(e);
+    }
+  }
   plan["hooks"] = hookTimes;
   for (auto& rs : plan["config"]["rulesets"]) {
     rs["prekill_hook_timeout"] = rng.pick<std::string>({"0", "1", "5", "30"});
@@ -433,7 +458,10 @@ static void runC07() {
       }
       if (mine->t != e.t)
         deferred++;
-      if (mine->inc >= 0 && mine->inc != a.inc) {
+      // (the kill xattrs are written by path and may land on the new
+      // incarnation - the known finding of C01/C10; "killed" means signalled)
+      if (mine->inc >= 0 && mine->inc != a.inc &&
+          (a.signalsOk > 0 || a.kernel)) {
         violate("C07.recreated-victim-killed",
                 "victim /" + a.rel + " was re-created while hook " +
                     mine->hook + " ran (incarnation " +
@@ -474,6 +502,22 @@ static void runC07() {
   R.nontrivial = nFires > 0 && attempts > 0;
 }
 
-static PropReg reg({"C07", genHookKillPlan, runC07});
+// C07's own plans additionally re-create cgroups in the middle of a tick (the
+// other users of the hook-plan generator assume a world that only changes
+// between ticks)
+static Json::Value genC07(Rng& rng) {
+  KillGenOpts o;
+  o.separated = true;
+  o.killFailP = rng.pick({0.2, 0.6});
+  o.churnP = 0.0;
+  o.maxRulesets = 2;
+  o.minTicks = 4;
+  o.maxTicks = 10;
+  o.kernelKillP = 0.1;
+  o.midTickEdits = true;
+  return genHookKillPlanWith(rng, o);
+}
+
+static PropReg reg({"C07", genC07, runC07});
 
 } // namespace sim
